@@ -61,15 +61,17 @@ def geoObj (j : Json) : Except String Obj := do
     | .error e => throw e
   pure { id := id, parent := strD j "parent", shape := strD j "shape", box := b,
          olabel := ← optBox j "olabel", oicon := ← optBox j "oicon",
-         is3d := boolD j "3d", multiple := boolD j "multiple", inSeq := boolD j "inSeq", isSeq := boolD j "isSeq",
-         constNear := boolD j "constNear", near := strD j "near", labelPos := strD j "labelPos", labelH := intD j "labelH",
-         hasLabel := boolD j "hasLabel" }
+         is3d := boolD j "3d", multiple := boolD j "multiple", inSeq := boolD j "inSeq", isSeq := boolD j "isSeq", isGrid := boolD j "isGrid",
+         constNear := boolD j "constNear", container := boolD j "container", near := strD j "near", labelPos := strD j "labelPos", labelH := intD j "labelH",
+         labelW := intD j "labelW", hasLabel := boolD j "hasLabel",
+         preW := (match geoRat j "preW" with | .ok r => r | .error _ => b.w),
+         seqGroup := boolD j "seqGroup", seqNote := boolD j "seqNote", line := intD j "line" }
 
 def geoEdge (j : Json) : Except String Edge := do
   let id ← getStr j "id"
   let r ← (← getArr j "route").toList.mapM (fun p => geoPt p |>.mapError (fun e => s!"{e} (edge {id})"))
   pure { id := id, src := strD j "src", dst := strD j "dst", route := r, lifeline := boolD j "lifeline",
-         inSeq := boolD j "inSeq", labelH := intD j "labelH" }
+         inSeq := boolD j "inSeq", labelH := intD j "labelH", labelW := intD j "labelW", line := intD j "line" }
 
 def geoOf (g : Json) : Except String (List Obj × List Edge) := do
   let os ← (← getArr g "objects").toList.mapM geoObj
@@ -85,6 +87,22 @@ def ratStr (r : Rat) : String :=
 
 def boxStr (b : Box) : String := s!"[x={ratStr b.x} y={ratStr b.y} w={ratStr b.w} h={ratStr b.h}]"
 def ptStr (p : Pt) : String := s!"({ratStr p.x},{ratStr p.y})"
+
+/-- verdict lines are one line each: names may contain line breaks -/
+def oneLine (s : String) : String :=
+  String.ofList (s.toList.flatMap fun c => if c == '\n' then ['\\', 'n'] else if c == '\r' then ['\\', 'r'] else [c])
+
+def sanitize : Verdict → Verdict
+  | .mismatch s d => .mismatch (oneLine s) (oneLine d)
+  | .specfalse s d => .specfalse (oneLine s) (oneLine d)
+  | .bad w => .bad (oneLine w)
+  | .skip w => .skip (oneLine w)
+  | .ok => .ok
+
+def runSanitized (f : Json → Except String Verdict) : IO Unit :=
+  runDriver fun j => match f j with
+    | .ok v => .ok (sanitize v)
+    | .error e => .error (oneLine e)
 
 /-- short stable token for signatures: engine + a tag -/
 def sigOf (engine tag : String) : String := s!"{tag}:{engine}"
